@@ -4,11 +4,12 @@
 # through VERIF_REPO. The registered commands always use /repo; to reproduce the official way:
 #   git -C /repo apply <patch>; ./check Cxx; git -C /repo checkout -- .
 set -u
-P=$1; PATCH=$2; shift 2
-S=/tmp/verif-mutant-repo
-rm -rf $S && mkdir -p $S && git -C /repo archive HEAD | tar -x -C $S || exit 2
+P=$1; PATCH=$(realpath "$2"); shift 2
+HERE=$(cd "$(dirname "$0")/.." && pwd)
+S=$(mktemp -d /tmp/verif-mutant-repo.XXXXXX)
+ git -C /repo archive HEAD | tar -x -C $S || exit 2
 ( cd $S && git init -q . && git apply "$PATCH" ) || { echo "patch does not apply"; rm -rf $S; exit 2; }
-cd /verif
+cd "$HERE"
 for c in $P "$@"; do
   echo "=== VERIF_REPO=$S ./check $c   (with $PATCH applied)"
   VERIF_REPO=$S timeout 2400 ./check $c 2>&1 | grep -E "^VIOLATION|^KNOWN-FINDING|^\[$c\]" | cut -c1-240 | head -12
